@@ -14,7 +14,8 @@ ASSUMPTIONS = [
     "source side: the decorated function is evaluated by ordinary Python (exec of its own source; HASH = independent signed CRC-32; enums from the statically extracted tables); the compiled output is compared with it on the symbolic IC10 machine for all device inputs",
     "closed: no label / instruction is attributable to a decorated function (instruction owners captured at the allocator call); bodies containing open / eval / exec are rejected",
     "family: seeded constexpr bodies (int / float arithmetic, shifts, or-ing bit fields, if/else, defaults and keyword arguments, HASH of a string argument, enum members, one constexpr calling another) x call positions (main statement, inside an expression with device reads, argument of a user function, body of a user function, library module, library constexpr called from main)",
-    "a 'Timeout during evaluating constexpr' answer (child process under load) is retried, then counted inconclusive",
+    "the 1 s limit of the constexpr child process is lifted to 60 s by the harness (subprocess.Popen.communicate wrapped in the worker): timing is C10's subject, and under CPU load every evaluation would be inconclusive",
+    "sequence scenarios: programs that differ only in a library constexpr body / a default value are compiled back to back in one process (the evaluation cache is process-global); each output is compared with ordinary Python evaluation of its own sources",
 ]
 
 ENUMS = ["SorterInstruction.FilterPrefabHashEquals", "SorterInstruction.FilterSortingClassCompare", "SortingClass.Ores", "LogicType.Setting", "Color.Red", "DisplayMode.String"]
@@ -88,6 +89,32 @@ WITNESS_LIB_INTERNAL = {
     "lib": HDR + "@constexpr\ndef lc(a):\n    return a * 2\n\ndef apply(v):\n    d3.Setting = v + lc(4)\n",
 }
 
+def sequence_scenarios():
+    """programs compiled one after the other in ONE process: each must still get the literals that
+    ordinary Python evaluation of ITS OWN sources gives"""
+    def prog(n, extra=""):
+        return {"": HDR + "from library import sorter\n\n@constexpr\ndef instruction(name, count):\n    return sorter.opcode(name) << 8 | count\n\n"
+                          "db.Setting = instruction(\"ItemIronOre\", 5)\nd0.Setting = sorter.opcode(\"abc\")\n" + extra,
+                "sorter": HDR + f"@constexpr\ndef opcode(name):\n    return HASH(name) << 8 | {n}\n"}
+    def single(k):
+        return HDR + f"@constexpr\ndef scale(a, b=3):\n    return a * b + {k}\n\ndb.Setting = scale(4)\nd1.Setting = scale(2, b=5) + d0.Setting\n"
+    return {
+        "lib_edit": [prog(1), prog(2), prog(1)],
+        "lib_edit_then_main": [prog(3), prog(3, "d2.Setting = 1\n"), prog(4, "d2.Setting = 1\n")],
+        "body_edit": [single(0), single(1), single(0), single(2)],
+    }
+
+
+def task_seq(spec):
+    outs = []
+    for i, srcs in enumerate(spec["sequence"]):
+        r = task(dict(name=f"{spec['name']}#{i}", sources=srcs, tier=spec.get("tier", "quick"), opts={}, ce_names=[], timeout=120))
+        r["step"] = i
+        r["sources"] = srcs
+        outs.append(r)
+    return outs
+
+
 FORBIDDEN = {
     "open": HDR + "@constexpr\ndef ce(a):\n    f = open('/etc/hostname')\n    return a\n\ndb.Setting = ce(1)\n",
     "eval": HDR + "@constexpr\ndef ce(a):\n    return eval('a + 1')\n\ndb.Setting = ce(1)\n",
@@ -95,7 +122,30 @@ FORBIDDEN = {
 }
 
 
+_patched = False
+
+
+def _lift_child_timeout():
+    """The 1 s limit of the constexpr child process is a timing matter (C10), not a value matter: under
+    CPU load every evaluation would be inconclusive.  The harness lifts it to 60 s for this check."""
+    global _patched
+    if _patched:
+        return
+    import subprocess
+
+    real = subprocess.Popen.communicate
+
+    def communicate(self, input=None, timeout=None):
+        if timeout is not None and timeout <= 1:
+            timeout = 60
+        return real(self, input=input, timeout=timeout)
+
+    subprocess.Popen.communicate = communicate
+    _patched = True
+
+
 def task(spec):
+    _lift_child_timeout()
     out = None
     for attempt in range(3):
         out = e1.task_src_vs_ic10(spec)
@@ -134,6 +184,12 @@ def run(tier: str) -> int:
             items.append(dict(name=name, sources=srcs, tier=tier, strict=False, opts={}, ce_names=re.findall(r"@constexpr\s+def (\w+)", s), timeout=120))
     items.append(dict(name="witness:lib_internal_call", sources=WITNESS_LIB_INTERNAL, tier=tier, opts={}, ce_names=["lc"], timeout=120))
     results = harness.pmap(task, items, nworkers=6)
+    seq_items = [dict(name=f"seq:{k}", sequence=v, tier=tier) for k, v in sequence_scenarios().items()]
+    seq_results = harness.pmap(task_seq, seq_items, nworkers=3)
+    for spec, rs in zip(seq_items, seq_results):
+        for r in rs:
+            items.append(dict(name=r["name"], sources=r["sources"], opts={}))
+            results.append(r)
     programs = 0
     for spec, r in zip(items, results):
         if r["status"] == "harness_error":
